@@ -110,7 +110,11 @@ static void judge(const Bytes &dg, const std::string &label, const Obs &o0, cons
     if (!idmatch) { violation("dns-datagram-matching-no-lookup-completes-a-lookup", label, dg, o.str()); return; }
     if (dg.size() >= 4 && !(dg[2] & 0x80)) { violation("dns-query-datagram-accepted-as-reply", label, dg, o.str()); return; }
     Generous g = ref_generous(dg.data(), dg.size());
-    for (auto &ad : o.a) if (!g.a.count(ad)) { violation("dns-" + shape + "-reports-address-not-in-datagram", label, dg, o.str()); return; }
+    // an address outside the generous set: either its 4 bytes occur nowhere behind the header (stale / uninitialised
+    // memory), or they do but no decoding reaches them (the parser kept going behind an element whose read failed)
+    for (auto &ad : o.a) if (!g.a.count(ad)) {
+      bool present = false; for (size_t i = 12; i + 4 <= dg.size(); i++) if (memcmp(&dg[i], ad.data(), 4) == 0) present = true;
+      violation("dns-" + shape + (present ? "-reports-records-located-behind-an-undecodable-element" : "-reports-address-not-in-datagram"), label, dg, o.str()); return; }
     for (auto &cn : o.c) if (!g.c.count(strip_dots(cn))) { violation("dns-" + shape + "-reports-name-not-in-datagram", label, dg, o.str()); return; }
     if (o.a.size() > g.max_a || o.c.size() > g.max_c) { violation("dns-" + shape + "-reports-more-records-than-datagram-encodes", label, dg, o.str() + " (datagram can encode at most " + std::to_string(g.max_a) + " A, " + std::to_string(g.max_c) + " CNAME)"); return; }
     // informational: agreement with the strict decoder
@@ -127,9 +131,10 @@ static void judge(const Bytes &dg, const std::string &label, const Obs &o0, cons
 
 // ------------------------------------------------------------------------------------------------
 // case enumeration
+static const uint8_t kSub[] = {0, 1, 0x3f, 0x40, 0xc0, 0xff};
 struct Case { Bytes dg; std::string label; };
 static std::vector<Case> g_cases;           // struct mode
-static uint64_t g_ncases = 0; static int g_tail_max = 0; static bool g_tail = false;
+static uint64_t g_ncases = 0; static int g_tail_max = 0; static bool g_tail = false, g_tail3s = false;
 
 struct Base { const char *name; Bytes b; std::vector<size_t> ptrs; Obs expect; };
 static std::vector<Base> bases() {
@@ -161,7 +166,6 @@ static std::vector<Base> bases() {
 }
 static void add_case(Bytes dg, const std::string &label) { if (dg.size() >= 1) dg[0] = kId >> 8; if (dg.size() >= 2) dg[1] = kId & 0xff; g_cases.push_back({dg, label}); }
 static void add_case_raw(const Bytes &dg, const std::string &label) { g_cases.push_back({dg, label}); }
-static const uint8_t kSub[] = {0, 1, 0x3f, 0x40, 0xc0, 0xff};
 static void build_struct_cases(bool pairs) {
   char l[160];
   for (auto &B : bases()) {
@@ -182,6 +186,7 @@ static void build_struct_cases(bool pairs) {
 }
 static void tail_case(uint64_t idx, Bytes &dg, std::string &label) {
   dg.assign({(uint8_t)(kId >> 8), (uint8_t)(kId & 0xff)});
+  if (g_tail3s) { uint64_t fl = idx / 6; dg.push_back((uint8_t)(fl >> 8)); dg.push_back((uint8_t)fl); dg.push_back(kSub[idx % 6]); label = "tail:len3s id+flags+1byte{00,01,3f,40,c0,ff}"; return; }
   uint64_t base = 0, cnt = 1; int len = 0;
   while (idx >= base + cnt) { base += cnt; cnt *= 256; len++; }
   uint64_t v = idx - base; for (int i = len - 1; i >= 0; i--) dg.push_back((uint8_t)(v >> (8 * i)));
@@ -231,10 +236,13 @@ int main(int argc, char **argv) {
   std::string mode = argc > 1 ? argv[1] : "struct";
   setvbuf(stdout, nullptr, _IONBF, 0);
   shm = (Shm *)mmap(nullptr, sizeof(Shm), PROT_READ | PROT_WRITE, MAP_SHARED | MAP_ANONYMOUS, -1, 0); memset(shm, 0, sizeof(Shm));
-  { const char *e = getenv("VERIF_DEADLINE_S"); g_deadline = real_now_s() + (e ? atof(e) : 600); }
+  { const char *e = getenv("VERIF_DEADLINE_S"); g_deadline = real_now_s() + (e ? atof(e) : 600);
+    const char *a = getenv("C15_DEADLINE_MONO"); if (a) g_deadline = atof(a); }   // absolute CLOCK_MONOTONIC seconds (set by check.py)
   if (mode == "one") {
     Bytes dg; const char *h = argc > 2 ? argv[2] : ""; for (size_t i = 0; h[i] && h[i + 1]; i += 2) { unsigned v; sscanf(h + i, "%2x", &v); dg.push_back(v); }
     g_cases.clear(); add_case(dg, "one:replay"); g_ncases = 1;
+  } else if (mode == "tail3s") {
+    g_shard = argc > 2 ? atoi(argv[2]) : 0; g_nshards = argc > 3 ? atoi(argv[3]) : 1; g_tail = g_tail3s = true; g_ncases = 65536 * 6;
   } else if (mode == "tail") {
     g_shard = argc > 2 ? atoi(argv[2]) : 0; g_nshards = argc > 3 ? atoi(argv[3]) : 1; g_tail_max = argc > 4 ? atoi(argv[4]) : 2; g_tail = true;
     uint64_t c = 1; g_ncases = 0; for (int l = 0; l <= g_tail_max; l++) { g_ncases += c; c *= 256; }
@@ -286,8 +294,9 @@ int main(int argc, char **argv) {
   if (shm->capped) printf("@CAP %s shard %lu/%lu: deadline reached after %lu of ~%lu datagrams\n", g_tagname.c_str(), (unsigned long)g_shard, (unsigned long)g_nshards, (unsigned long)shm->done, (unsigned long)((g_ncases - g_shard + g_nshards - 1) / g_nshards));
   for (auto &e : shm->outs) if (e.txt[0]) printf("@OUTCOME parser %s n=%lu [%s shard %lu]\n", e.txt, (unsigned long)e.n, g_tagname.c_str(), (unsigned long)g_shard);
   for (auto &e : shm->sigs) if (e.sig[0]) printf("@INFO %s shard %lu: %lu datagrams with signature %s\n", g_tagname.c_str(), (unsigned long)g_shard, (unsigned long)e.n, e.sig);
-  printf("@STAT states=%lu transitions=%lu executions=%lu violations=%lu callbacks=%lu ignored=%lu paint_dependent=%lu worker_deaths=%lu workers=%d world_reused=%lu world_rebuilt=%lu strict_exact=%lu strict_lenient=%lu\n",
-         (unsigned long)shm->done, (unsigned long)shm->execs, (unsigned long)shm->execs, (unsigned long)shm->viols, (unsigned long)shm->callbacks, (unsigned long)shm->ignored,
+  bool plain = std::string(BUILD_TAG) == "plain";   // distinct datagrams are counted once (plain build); the ASan build re-evaluates a subset
+  printf("@STAT states=%lu %s=%lu transitions=%lu executions=%lu violations=%lu callbacks=%lu ignored=%lu paint_dependent=%lu worker_deaths=%lu workers=%d world_reused=%lu world_rebuilt=%lu strict_exact=%lu strict_lenient=%lu\n",
+         (unsigned long)(plain ? shm->done : 0), plain ? "datagrams_plain" : "datagrams_asan", (unsigned long)shm->done, (unsigned long)shm->execs, (unsigned long)shm->execs, (unsigned long)shm->viols, (unsigned long)shm->callbacks, (unsigned long)shm->ignored,
          (unsigned long)shm->paint_diff, (unsigned long)crashes, spawned, (unsigned long)shm->reused, (unsigned long)shm->rebuilt, (unsigned long)shm->strict_exact, (unsigned long)shm->strict_differs);
   if (mode == "one") { /* print the observation for a human */ }
   return 0;
